@@ -182,7 +182,18 @@ Definition a_load_immediate (t : atemp) (v : Z) : list acode :=
   end.
 Definition a_load_label (t : atemp) (l : string) : list acode :=
   match t with AR r => [ADR r l] | AS p => [ADR TEMP l; STR TEMP SP (stack_offset p)] end.
+(* add_and_jump (repaired, fix of the finding "tag dispatch immediate", docs/C14.md): the immediate of ADD has 12 bits; a
+   larger offset (a type with more than 1024 xtors) is first loaded into the second scratch register *)
+Definition add_imm_fits (i : Z) : bool := ((0 <=? i) && (i <=? 4095))%Z.
+Definition add_offset (r : areg) (i : Z) : list acode :=
+  if add_imm_fits i then [ADDI r r i] else imm_code TEMP2 i ++ [ADD r r TEMP2].
 Definition a_add_and_jump (t : atemp) (i : Z) : list acode :=
+  match t with
+  | AR r => add_offset r i ++ [BR r]
+  | AS p => [LDR TEMP SP (stack_offset p)] ++ add_offset TEMP i ++ [BR TEMP]
+  end.
+(* the code before the repair (regression lemmas of C14: the immediate is not encodable beyond 1023 xtors) *)
+Definition old_a_add_and_jump (t : atemp) (i : Z) : list acode :=
   match t with
   | AR r => [ADDI r r i; BR r]
   | AS p => [LDR TEMP SP (stack_offset p); ADDI TEMP TEMP i; BR TEMP]
